@@ -3,6 +3,7 @@ import logging
 import weakref
 import trio
 import functools
+import inspect
 import threading
 
 from types import ModuleType
@@ -98,6 +99,14 @@ def service(flavour):
             self.__service_unit__ = service_unit
             return self
 
+        # ``__new__`` takes precedence for ``inspect.signature(raw_cls)``: expose the
+        # signature of the actual constructor instead of ``(*args, **kwargs)``
+        try:
+            __new_service__.__signature__ = inspect.signature(
+                raw_cls.__init__ if __new__ is object.__new__ else __new__
+            )
+        except (TypeError, ValueError):
+            pass
         raw_cls.__new__ = __new_service__
         if raw_cls.run.__doc__ is None:
             raw_cls.run.__doc__ = "Service entry point"
